@@ -40,7 +40,25 @@ def mk_member(rng, base_pt, kind, spread):
           max(-89.0, min(89.0, dec + rng.uniform(-d, d))))
     if kind == 'jwst':
         return scenes.mk_jwst(rng, pointing=pt)
-    return scenes.mk_fits(rng, kind=rng.choice(['cd', 'pc', 'sip']), pointing=pt)
+    return scenes.mk_fits(rng, kind=rng.choice(['cd', 'pc', 'sip', 'lut']), pointing=pt)
+
+
+def pre_align(rng, c):
+    """`c` after a real earlier alignment pass (fit_wcs to a slightly displaced reference): the corrector is
+    corrected once more AND carries the meta['fit_info'] (centre of the fit, matrix, ...) that a corrector
+    coming out of align_wcs carries - second passes and planes copied from aligned images look like this"""
+    from tweakwcs.imalign import fit_wcs
+    nx, ny = scenes.image_size(c)
+    px, py = c01.nondegenerate_pixels(rng, nx, ny, 8)
+    unit = c.tanp_center_pixel_scale if scenes.is_jwst(c) else 1.0
+    g = c02.gen_corr(rng, unit, big=False)
+    pl = c.copy()
+    a_k = np.array(pl.world_to_tanp(*c.det_to_world(px, py)), dtype=float)
+    r_k = g(a_k)
+    ra, dec = pl.tanp_to_world(r_k[0], r_k[1])
+    out = fit_wcs(Table([np.asarray(ra, dtype=float), np.asarray(dec, dtype=float)], names=['RA', 'DEC']),
+                  Table([px, py], names=['x', 'y']), c.copy(), fitgeom='general', nclip=None, sigma=3.0)
+    return out
 
 
 def plane_bound(plane, member, c_applied_units, rho_member_rad, same_tp):
@@ -80,7 +98,10 @@ def scenario(ctx, lines, pend):
             hist.append(('S', c02.gen_corr(rng, unit_m, big=False)))
         if hist:
             m, _b = corrsim.apply_real(m, hist)
-        info = dict(info, prior=[h[0] for h in hist])
+        aligned_before = rng.random() < 0.35
+        if aligned_before:
+            m = pre_align(rng, m)
+        info = dict(info, prior=[h[0] for h in hist] + (['aligned'] if aligned_before else []))
         members.append(m)
         infos.append(info)
     # reference plane
@@ -93,6 +114,9 @@ def scenario(ctx, lines, pend):
         plane_arg = plane
     else:
         plane, pinfo = mk_member(rng, base_pt, rng.choice(['fits', 'jwst']), spread)
+        if rng.random() < 0.35:
+            plane = pre_align(rng, plane)
+            pk = 'nonmember-aligned'
         plane_arg = plane
     fitgeom = rng.choice(['shift', 'rshift', 'rscale', 'general'])
     punit = plane.tanp_center_pixel_scale if scenes.is_jwst(plane) else 1.0
